@@ -121,7 +121,10 @@ def main(tier, replay, t0):
                     continue
                 total_texts += 1
                 key = g.get("canon_sha") or g.get("text_sha")
-                if x.get("include_path"):
+                if x.get("include_path") is not None:
+                    if x["include_path"] in ("", " ") or "\n" in x["include_path"]:
+                        continue  # include_str! of a path that cannot name a file next to the
+                        # module: rejection is the caller's, not the generator's
                     key = key + "|inc"
                 by_config[x["id"][:8]] = by_config.get(x["id"][:8], 0) + 1
                 texts.setdefault(key, (os.path.join(x["dir"], "m.rs"), c, x))
@@ -160,7 +163,7 @@ def main(tier, replay, t0):
                              (os.path.join(x["dir"], "m.rs"), c, x))
     # 3. compile against the real crates
     items = sorted(texts.items())
-    nshards = core.NCPU
+    nshards = max(core.NCPU, (len(items) + 149) // 150)
     shard_mods = {i: [] for i in range(nshards)}
     meta = {}
     root = os.path.join(d, "ws")
